@@ -34,6 +34,8 @@ var watchdog = 4 * time.Second
 
 const interval = 50 * time.Microsecond
 
+const queueCap = 1024 // capacity of the library's write request queue
+
 // F33 is fixed in the code; a case that shows it again carries this signature.
 const sigRevive = "F33:reconnect-write-succeeds-after-read-side-budget-exhausted"
 
@@ -88,10 +90,14 @@ type gate struct {
 	open    bool
 	waiting int
 	pongs   int // Write calls with the pong payload that passed the gate
+	// second stage: an underlying Write that has ACCEPTED (recorded) its payload waits here
+	// before it returns nil
+	postOpen    bool
+	postWaiting int
 }
 
 func newGate() *gate {
-	g := &gate{open: true}
+	g := &gate{open: true, postOpen: true}
 	g.cond = sync.NewCond(&g.mu)
 	return g
 }
@@ -107,6 +113,29 @@ func (g *gate) pass(isPong bool) {
 		g.pongs++
 	}
 	g.mu.Unlock()
+}
+
+func (g *gate) passPost() {
+	g.mu.Lock()
+	g.postWaiting++
+	for !g.postOpen {
+		g.cond.Wait()
+	}
+	g.postWaiting--
+	g.mu.Unlock()
+}
+
+func (g *gate) setPost(open bool) {
+	g.mu.Lock()
+	g.postOpen = open
+	g.cond.Broadcast()
+	g.mu.Unlock()
+}
+
+func (g *gate) getPost() int {
+	g.mu.Lock()
+	defer g.mu.Unlock()
+	return g.postWaiting
 }
 
 func (g *gate) set(open bool) {
@@ -153,17 +182,21 @@ var pongBytes = []byte("pong")
 func (i *inc) Write(bs []byte) error {
 	i.g.pass(string(bs) == "pong")
 	i.mu.Lock()
-	defer i.mu.Unlock()
 	if i.closed {
+		i.mu.Unlock()
 		return fmt.Errorf("scripted: write on closed transport")
 	}
 	if i.cap == 0 {
+		i.mu.Unlock()
 		return fmt.Errorf("scripted: write failure")
 	}
 	if i.cap > 0 {
 		i.cap--
 	}
+	// accepted: recorded now, whatever happens to the connection before Write returns
 	i.log = append(i.log, append([]byte(nil), bs...))
+	i.mu.Unlock()
+	i.g.passPost()
 	return nil
 }
 
@@ -391,6 +424,8 @@ type result struct {
 	direct string
 	sig    string
 	evs    []evIn
+	// number of arfbatch events in which the read failure was really injected behind an accepted write
+	injected int
 }
 
 // runCase executes one case on the real code.  The events come from ci.Evs or, when src is
@@ -520,11 +555,19 @@ func runCase(ci *caseIn, src evSource) (res result) {
 				out[j].err = rt.Write(ws[j].Bs)
 			}()
 		}
+		var deadline <-chan time.Time
 		wait := func(j int) {
+			if deadline == nil {
+				deadline = time.After(watchdog) // one watchdog for the whole batch
+			}
 			select {
 			case <-chans[j]:
-			case <-time.After(watchdog):
+			case <-deadline:
 				out[j].blocked = true
+				// the deadline has fired once: the remaining ones are only polled
+				dl := make(chan time.Time)
+				close(dl)
+				deadline = dl
 			}
 		}
 		if isDone() || len(ws) == 0 {
@@ -541,15 +584,23 @@ func runCase(ci *caseIn, src evSource) (res result) {
 		ok := true
 		for j := range ws {
 			start(j)
-			if j == 0 {
+			switch {
+			case j == 0:
 				ok = waitUntil(func() bool { w, _ := g.get(); return w == 1 || isDone() })
-			} else {
+			case j <= queueCap:
 				ok = waitUntil(func() bool { w, _ := rt.VerifQueueLens(); return w == j || isDone() })
+			default:
+				// the queue is full: this writer blocks in its send (writeOrDone); its position among
+				// the overflow writers is not controlled - big batches are only generated where every
+				// write from the capacity on fails
 			}
 			if !ok {
 				abort(fmt.Sprintf("write %d of a batch did not reach the write loop / the queue (hang)", j))
 				break
 			}
+		}
+		if len(ws) > queueCap+1 {
+			time.Sleep(30 * time.Millisecond) // let the overflow writers reach their send (sensitivity only)
 		}
 		if mid != nil && ok {
 			mid()
@@ -678,6 +729,102 @@ func runCase(ci *caseIn, src evSource) (res result) {
 			}
 			emit("ReadFail false", rf)
 			emit("Batch "+wsTerm(e.Ws), wrTerm(rs, "rfbatch"))
+			settle(false)
+		case "arfbatch":
+			// accept -> read failure -> redial completes -> Write returns nil: the first write is held
+			// inside the underlying Write AFTER its payload was recorded, the others queue behind it,
+			// then the current connection's Read fails and the read loop installs the next connection,
+			// and only then the held Write returns.  Linearisation: Batch [first]; ReadFail; Batch rest.
+			if isDone() || len(e.Ws) == 0 {
+				rs := batch(e.Ws, nil)
+				emit("Batch "+wsTerm(e.Ws), wrTerm(rs, "arfbatch"))
+				settle(false)
+				break
+			}
+			ws := e.Ws
+			out := make([]wr, len(ws))
+			chans := make([]chan struct{}, len(ws))
+			start := func(j int) {
+				chans[j] = make(chan struct{})
+				go func() {
+					defer close(chans[j])
+					defer func() { out[j].pan = recover() }()
+					out[j].err = rt.Write(ws[j].Bs)
+				}()
+			}
+			finished := func(j int) bool {
+				select {
+				case <-chans[j]:
+					return true
+				default:
+					return false
+				}
+			}
+			g.setPost(false)
+			start(0)
+			ok := waitUntil(func() bool { return g.getPost() == 1 || finished(0) || isDone() })
+			held := ok && g.getPost() == 1
+			rf := ""
+			if !ok {
+				abort("the first write of a batch neither was accepted nor failed (hang)")
+			}
+			if held {
+				for j := 1; j < len(ws) && ok; j++ {
+					start(j)
+					ok = waitUntil(func() bool { w, _ := rt.VerifQueueLens(); return w == j || isDone() })
+				}
+				if !ok {
+					abort("a write of a batch did not reach the queue (hang)")
+				}
+				// the write loop may have redialled before the write was accepted: let the read loop
+				// arrive on the current connection first
+				for _, t := range d.snapshot() {
+					t.release()
+				}
+				if ok && readerAlive && !waitUntil(func() bool { return isDone() || d.current().parkedEmpty() }) {
+					abort("the read loop did not come back to Read on the current connection (hang)")
+					ok = false
+				}
+				nd := func() int { d.mu.Lock(); defer d.mu.Unlock(); return len(d.dials) }()
+				if ok && readerAlive && !isDone() && roundSucceeds(ci, nd) {
+					rf = readFail(false)
+				}
+			}
+			g.setPost(true)
+			deadline := time.After(watchdog)
+			failed := false
+			for j := range ws {
+				if chans[j] == nil {
+					if isDone() {
+						start(j)
+					} else {
+						out[j].blocked = true
+						continue
+					}
+				}
+				select {
+				case <-chans[j]:
+					failed = failed || out[j].err != nil
+				case <-deadline:
+					out[j].blocked = true
+					dl := make(chan time.Time)
+					close(dl)
+					deadline = dl
+				}
+			}
+			if failed && !waitUntil(isDone) {
+				abort("a Write failed but the transport's context was never cancelled (later Writes will block)")
+			}
+			if rf != "" {
+				emit("Batch "+wsTerm(ws[:1]), wrTerm(out[:1], "arfbatch"))
+				emit("ReadFail false", rf)
+				if len(ws) > 1 {
+					emit("Batch "+wsTerm(ws[1:]), wrTerm(out[1:], "arfbatch"))
+				}
+				res.injected++
+			} else {
+				emit("Batch "+wsTerm(ws), wrTerm(out, "arfbatch"))
+			}
 			settle(false)
 		case "batchclose":
 			st := statusNames[e.Status%4]
@@ -872,6 +1019,21 @@ func genScript(r *rng.R) []dialSpec {
 	return s
 }
 
+// roundSucceeds: would a redial round started after [used] dial attempts find a connection
+// whose handshake succeeds within the budget?  (script bookkeeping only)
+func roundSucceeds(ci *caseIn, used int) bool {
+	b := ci.Budget
+	if b == 0 {
+		b = 30
+	}
+	for k := used; k < used+b && k < len(ci.Script); k++ {
+		if ci.Script[k].Ok && ci.Script[k].Hs {
+			return true
+		}
+	}
+	return false
+}
+
 func genCase(r *rng.R) (*caseIn, evSource, string) {
 	ci := &caseIn{Budget: 1 + r.Intn(3), TidSet: r.Bool(), Script: genScript(r), TailHs: r.Chance(1, 4), Free: r.Chance(1, 4)}
 	kind := "hold"
@@ -942,8 +1104,10 @@ func genCase(r *rng.R) (*caseIn, evSource, string) {
 		for {
 			x := r.Intn(100)
 			switch {
-			case x < 34:
+			case x < 29:
 				return evIn{Op: "batch", Ws: mkWs(1 + r.Intn(4))}, true
+			case x < 34:
+				return evIn{Op: "arfbatch", Ws: mkWs(1 + r.Intn(3))}, true
 			case x < 40:
 				return evIn{Op: "rfbatch", Ws: mkWs(1 + r.Intn(3))}, true
 			case x < 52:
@@ -977,6 +1141,43 @@ func genCase(r *rng.R) (*caseIn, evSource, string) {
 // exhaustive small scope: every script of at most [depth] dial outcomes after the first
 // connection over {fail, connect+handshake fails, connect unlimited, connect capacity 1},
 // first connection of capacity 1 or 2, budget 1 or 2, both tails; one fixed history around it.
+// more pending writers than the request queue holds (1 in flight + 1024 queued + overflow writers
+// blocked in their send), then the transport ends: every one of them must return an error.
+func genBigQueue(n int, add func(*caseIn, evSource, string)) {
+	big := func(k int) []wIn {
+		var ws []wIn
+		for j := 0; j < k; j++ {
+			ws = append(ws, wIn{Writer: j + 1, Bs: []byte{250, byte(j >> 8), byte(j)}})
+		}
+		return ws
+	}
+	after := []evIn{{Op: "batch", Ws: []wIn{{1, []byte{1, 1}}}}, {Op: "readstart"}, {Op: "readjoin"}}
+	fixed := func(evs ...evIn) evSource {
+		evs = append(evs, after...)
+		return func(v view) (evIn, bool) {
+			if v.n < len(evs) {
+				return evs[v.n], true
+			}
+			return evIn{}, false
+		}
+	}
+	// Close with a write in flight and the queue overfull
+	add(&caseIn{Budget: 1, TidSet: true, Script: []dialSpec{{Ok: true, Cap: -1}}},
+		fixed(evIn{Op: "batchclose", Ws: big(n), Status: 1}), "big-queue")
+	add(&caseIn{Budget: 1, Script: []dialSpec{{Ok: true, Cap: -1}}},
+		fixed(evIn{Op: "batchclose", Ws: big(queueCap + 6), Status: 2}), "big-queue")
+	// the write side exhausts its budget on the first / the fourth write of an overfull queue
+	add(&caseIn{Budget: 2, TidSet: true, Script: []dialSpec{{Ok: true, Cap: 0}, {}}},
+		fixed(evIn{Op: "batch", Ws: big(n)}), "big-queue")
+	add(&caseIn{Budget: 1, Script: []dialSpec{{Ok: true, Cap: 3}, {}}},
+		fixed(evIn{Op: "batch", Ws: big(n)}), "big-queue")
+	add(&caseIn{Budget: 2, Script: []dialSpec{{Ok: true, Cap: 0}}, TailHs: true},
+		fixed(evIn{Op: "batch", Ws: big(n)}), "big-queue")
+	// the read side exhausts its budget while a write is in flight and the queue is overfull
+	add(&caseIn{Budget: 1, TidSet: true, Script: []dialSpec{{Ok: true, Cap: -1}, {}}},
+		fixed(evIn{Op: "rfbatch", Ws: big(n)}), "big-queue")
+}
+
 func genExhaustive(depth int, add func(*caseIn, evSource, string)) {
 	alphabet := []dialSpec{{}, {Ok: true, Hs: false, Cap: -1}, {Ok: true, Hs: true, Cap: -1}, {Ok: true, Hs: true, Cap: 1}}
 	var rec func(prefix []dialSpec)
@@ -989,40 +1190,27 @@ func genExhaustive(depth int, add func(*caseIn, evSource, string)) {
 					}
 					ci := &caseIn{Budget: budget, TidSet: cap0 == 1, TailHs: tail}
 					ci.Script = append([]dialSpec{{Ok: true, Cap: cap0}}, prefix...)
-					step := 0
+					seq := []evIn{
+						{Op: "batch", Ws: []wIn{{1, []byte{1, 1}}, {2, []byte{2, 1}}, {3, []byte{3, 1}}}},
+						{Op: "deliver", Bs: []byte("ping")},
+						{Op: "readstart"},
+						{Op: "deliver", Bs: []byte{101}},
+						{Op: "readjoin"},
+						{Op: "arfbatch", Ws: []wIn{{2, []byte{2, 9}}, {3, []byte{3, 9}}}},
+						{Op: "readfail"},
+						{Op: "batch", Ws: []wIn{{1, []byte{1, 2}}, {4, []byte{4, 1}}}},
+						{Op: "readstart"},
+						{Op: "readjoin"},
+						{Op: "close", Status: 2},
+						{Op: "batch", Ws: []wIn{{2, []byte{2, 2}}}},
+						{Op: "readstart"},
+						{Op: "readjoin"},
+					}
 					src := func(v view) (evIn, bool) {
-						for {
-							step++
-							switch step {
-							case 1:
-								return evIn{Op: "batch", Ws: []wIn{{1, []byte{1, 1}}, {2, []byte{2, 1}}, {3, []byte{3, 1}}}}, true
-							case 2:
-								return evIn{Op: "deliver", Bs: []byte("ping")}, true
-							case 3:
-								return evIn{Op: "readstart"}, true
-							case 4:
-								return evIn{Op: "deliver", Bs: []byte{101}}, true
-							case 5:
-								return evIn{Op: "readjoin"}, true
-							case 6:
-								return evIn{Op: "readfail"}, true
-							case 7:
-								return evIn{Op: "batch", Ws: []wIn{{1, []byte{1, 2}}, {4, []byte{4, 1}}}}, true
-							case 8:
-								return evIn{Op: "readstart"}, true
-							case 9:
-								return evIn{Op: "readjoin"}, true
-							case 10:
-								return evIn{Op: "close", Status: 2}, true
-							case 11:
-								return evIn{Op: "batch", Ws: []wIn{{2, []byte{2, 2}}}}, true
-							case 12:
-								return evIn{Op: "readstart"}, true
-							case 13:
-								return evIn{Op: "readjoin"}, true
-							}
-							return evIn{}, false
+						if v.n < len(seq) {
+							return seq[v.n], true
 						}
+						return evIn{}, false
 					}
 					add(ci, src, fmt.Sprintf("exhaustive-d%d", depth))
 				}
@@ -1086,6 +1274,7 @@ func main() {
 			jobs = append(jobs, job{kind: "regression-F33", ci: &caseIn{Budget: 1, TidSet: true,
 				Script: []dialSpec{{Ok: true, Hs: true, Cap: -1}, {}, {Ok: true, Hs: true, Cap: -1}},
 				Evs: []evIn{{Op: "readfail"}, {Op: "readstart"}, {Op: "readjoin"}, {Op: "batch", Ws: []wIn{{1, []byte{7}}}}}}})
+			genBigQueue(1100, func(ci *caseIn, src evSource, kind string) { jobs = append(jobs, job{ci: ci, src: src, kind: kind}) })
 			genExhaustive(depth, func(ci *caseIn, src evSource, kind string) { jobs = append(jobs, job{ci: ci, src: src, kind: kind}) })
 		}
 		r := rng.New(*seed)
@@ -1132,7 +1321,7 @@ func main() {
 			if len(e.Ws) > maxBatch {
 				maxBatch = len(e.Ws)
 			}
-			if e.Op == "readfail" || e.Op == "rfbatch" {
+			if e.Op == "readfail" || e.Op == "rfbatch" || e.Op == "arfbatch" {
 				redials++
 			}
 		}
@@ -1146,11 +1335,14 @@ func main() {
 		w.Count(fmt.Sprintf("writers:%d", len(writers)))
 		w.Count(fmt.Sprintf("max-batch:%d", maxBatch))
 		w.Count(fmt.Sprintf("budget:%d", j.ci.Budget))
+		for k := 0; k < rs.injected; k++ {
+			w.Count("arfbatch:read-failure-injected-behind-an-accepted-write")
+		}
 		if rs.sig != "" {
 			w.Count("sig:" + rs.sig)
 		}
 	}
-	rule := "exhaustive: every script of <= d dial outcomes after the first connection over {dial error, connect + handshake read fails, connect, connect with write capacity 1}, first connection of capacity 1 or 2, budget 1 or 2, both behaviours once the script is used up (dial errors / connections whose handshake fails for ever), around the fixed history: 3 queued writes of 3 writers, ping, pending Read resolved by a delivery, read failure, 2 more writes, Read, Close, write and Read after Close. random: budget 1-3 (0 = default 30 rarely), scripts of 1-11 outcomes incl. failing Dial, 5-16 events out of: batches of 1-4 concurrently pending writes of distinct writers (queue order fixed through the queue-length accessor), read failure while a write is in flight, Close while a write is in flight with more queued, deliveries (data, ping, pong), read failures (abnormal and normal close), Read started / joined (pending across other events), Close; then Close, write, Read; 1/4 of the cases with the read loop free to race the write loop's redial. non-trivial = some dial/handshake failure or write capacity in the script, a redial caused by it, and at least one write; distinct = distinct Coq case terms"
+	rule := "big-queue: 6 cases with 1030-1100 concurrently pending writers (1 in flight, 1024 queued, the rest blocked on the full queue) ended by Close / write-side / read-side budget exhaustion, every Write must return an error; exhaustive: every script of <= d dial outcomes after the first connection over {dial error, connect + handshake read fails, connect, connect with write capacity 1}, first connection of capacity 1 or 2, budget 1 or 2, both behaviours once the script is used up (dial errors / connections whose handshake fails for ever), around the fixed history: 3 queued writes of 3 writers, ping, pending Read resolved by a delivery, read failure, 2 more writes, Read, Close, write and Read after Close. random: budget 1-3 (0 = default 30 rarely), scripts of 1-11 outcomes incl. failing Dial, 5-16 events out of: batches of 1-4 concurrently pending writes of distinct writers (queue order fixed through the queue-length accessor), read failure while a write is in flight before / after the underlying connection recorded it (accept -> read failure -> redial completes -> Write returns nil), Close while a write is in flight with more queued, deliveries (data, ping, pong), read failures (abnormal and normal close), Read started / joined (pending across other events), Close; then Close, write, Read; 1/4 of the cases with the read loop free to race the write loop's redial. non-trivial = some dial/handshake failure or write capacity in the script, a redial caused by it, and at least one write; distinct = distinct Coq case terms"
 	if err := w.Flush(*seed, *tier, rule, false, nil); err != nil {
 		fmt.Fprintln(os.Stderr, err)
 		os.Exit(2)
